@@ -43,3 +43,51 @@ package lfs
 //@   props C20
 //@   modifies ghost fexists[hookpath(h.Dir, h.Type)], ghost fdata[hookpath(h.Dir, h.Type)]
 //@   ensures result == nil ==> fexists(hookpath(h.Dir, h.Type)) && fdata(hookpath(h.Dir, h.Type)) == scat(h.Contents, "\n")
+
+// C01 / C08 (clean side).  rrest(r) is the byte sequence reader r still
+// delivers; S below is old(rrest(reader)), the whole input.  decodes_ok(b)
+// says that decodeKV accepts the bytes b.  has_chunk/chunk describe how many
+// bytes the next Read of a composed reader returns.
+//@ func decodeKV
+//@   assumed
+//@   props C01 C08
+//@   modifies fresh
+//@   ensures (result1 == nil) == decodes_ok(bytesOf(data))
+//@   ensures result1 == nil ==> result0 != nil && isfresh(result0)
+//@   ensures result1 != nil ==> result0 == nil && err_isdecode(result1) && !err_cleanptr(result1)
+
+// DecodeFrom loses nothing of the stream, and decides "pointer or not" on the
+// whole input when it is shorter than 1024 bytes - however it is chunked.
+//@ func DecodeFrom
+//@   props C01 C08
+//@   requires @inv reader != nil
+//@   modifies fresh, ghost rrest[reader]
+//@   ensures result1 != nil && isfresh(vref(result1)) && rrest(result1) == old(rrest(reader))
+//@   ensures reads_ok(reader) ==> reads_ok(result1) && (result2 == nil || err_isdecode(result2))
+//@   ensures result2 == nil || err_isdecode(result2) ==> rrest(reader) == bsub(old(rrest(reader)), chunk(result1), len(old(rrest(reader))))
+//@   ensures !err_cleanptr(result2)
+//@   ensures result2 == nil || err_isdecode(result2) ==> has_chunk(result1)
+//@   ensures len(old(rrest(reader))) < 1024 && (result2 == nil || err_isdecode(result2)) ==> chunk(result1) == len(old(rrest(reader)))
+//@   ensures len(old(rrest(reader))) >= 1024 && (result2 == nil || err_isdecode(result2)) ==> chunk(result1) == 1024
+//@   ensures len(old(rrest(reader))) == 0 && result2 == nil ==> result0 != nil && result0.Size == 0
+//@   ensures len(old(rrest(reader))) > 0 && len(old(rrest(reader))) < 1024 && result2 == nil ==> decodes_ok(str_trim(old(rrest(reader))))
+//@   ensures len(old(rrest(reader))) > 0 && len(old(rrest(reader))) < 1024 && decodes_ok(str_trim(old(rrest(reader)))) ==> !(result2 != nil && err_isdecode(result2))
+
+// copyToTemp: a short input that is a well-formed pointer is reported back
+// verbatim (nothing is hashed or kept); anything else is stored in full and
+// the id and size returned are the SHA-256 and length of what was stored.
+//@ func (*GitFilter).copyToTemp
+//@   props C01 C08 C09
+//@   requires @inv reader != nil && reads_ok(reader)
+//@   ensures err_cleanptr(err) ==> err_ctxbytes(err) == old(rrest(reader)) && len(old(rrest(reader))) < 1024
+//@   ensures err_cleanptr(err) && len(old(rrest(reader))) > 0 ==> decodes_ok(str_trim(old(rrest(reader))))
+//@   ensures err == nil ==> tmp != nil && fdata(fpath(tmp)) == old(rrest(reader)) && oid == hexsha(old(rrest(reader))) && size == len(old(rrest(reader)))
+
+//@ func TempFile
+//@   assumed
+//@   props C01 C08 C09
+//@   modifies fresh, ghost fpath[result0], ghost fexists[fpath(result0)], ghost fdata[fpath(result0)], ghost rrest[iface(result0)]
+//@   ensures result1 == nil ==> result0 != nil && isfresh(result0) && fexists(fpath(result0)) && fdata(fpath(result0)) == "" && rrest(iface(result0)) == ""
+//@   ensures !isobj(fpath(result0))
+//@   ensures result1 != nil ==> result0 == nil
+//@   ensures !err_cleanptr(result1)
